@@ -5,6 +5,11 @@
 //     reserved capacity
 //   * model level: op line -> momo_model (engine `arr`), answer = count, capacity, every cell (`~` = moved-from),
 //     every memory-manager call of the operation
+//   * creation: default / (count, item) / forward range / input range / (count) / (initializer_list, memManager) / CreateCap /
+//     CreateCrt, all with a model op line; every round ends with an access scenario (IsEmpty, GetBackItem() const, non-const
+//     GetBegin..GetEnd with conversion to the const iterator and writes through the iterator, Contains / IsEqual with counting
+//     functors against std::any_of / std::equal on the reference sequences; the model then answers `get`) and, for momo::Array,
+//     a capacity-overflow scenario (std::bad_array_new_length, nothing changed, no memory-manager call)
 #pragma once
 #include "momo/Array.h"
 #include "momo/SegmentedArray.h"
@@ -17,6 +22,7 @@
 #include <deque>
 #include <algorithm>
 #include <type_traits>
+#include <new>
 
 #if defined(__SANITIZE_ADDRESS__)
 # include <sanitizer/asan_interface.h>
@@ -204,6 +210,22 @@ struct CO
 	CO& operator=(const CO& o) { if (this != &o) { int* q = new int(*o.p); delete p; p = q; } return *this; }
 };
 
+// "not nothrow-movable but nothrow-swappable" (copy-and-swap idiom): no move constructor (gcc / clang: momo treats every type
+// that DECLARES a move constructor as nothrow relocatable, MOMO_IS_NOTHROW_RELOCATABLE_APPENDIX), the copy constructor may throw
+// (never does), assignment takes its argument by value, ADL swap is noexcept.  ObjectManager: isNothrowSwappable, hence
+// isNothrowShiftable / isNothrowAnywayAssignable; ArrayItemTraits: not nothrow relocatable, not nothrow move constructible -
+// the arrays assign with a plain `item = ...` (ItemTraits::Assign), so for them the category equals copy-only
+struct SW
+{
+	int* p;
+	SW() : p(new int(0)) {}
+	explicit SW(int id) : p(new int(id)) {}
+	SW(const SW& o) : p(new int(*o.p)) {}
+	~SW() { delete p; }
+	SW& operator=(SW o) { swap(*this, o); return *this; }
+	friend void swap(SW& a, SW& b) noexcept { int* t = a.p; a.p = b.p; b.p = t; }
+};
+
 template<typename T> struct Codec;
 template<> struct Codec<std::string> {
 	static const bool keeps = false; static const bool zeroIsMoved = true; static const char* name() { return "string"; }
@@ -231,6 +253,11 @@ template<> struct Codec<CO> {
 	static const bool keeps = true; static const bool zeroIsMoved = false; static const char* name() { return "copyonly"; }
 	static CO make(uint32_t id) { return CO((int)id); }
 	static std::string show(const CO& t) { return std::to_string(*t.p); }
+};
+template<> struct Codec<SW> {
+	static const bool keeps = true; static const bool zeroIsMoved = false; static const char* name() { return "copyswap"; }
+	static SW make(uint32_t id) { return SW((int)id); }
+	static std::string show(const SW& t) { return std::to_string(*t.p); }
 };
 
 // single-pass iterator over a vector (iterator_category = input_iterator_tag)
@@ -285,7 +312,16 @@ struct NativeBase
 	static void asgl(C& c, std::initializer_list<T> l) { C tmp(l); c = std::move(tmp); }
 	static C* newfill(size_t n, const T& x) { return new C(n, x); }
 	template<typename It> static C* newrange(It b, It e) { return new C(b, e); }
-	static const bool hasShrinkTo = true, hasClearShrink = true, hasCopyNoShrink = true;
+	static C* newcount(size_t n) { return new C(n); }	// explicit Array / SegmentedArray(size_t count, MemManager = MemManager())
+	static C* newlist(std::initializer_list<T> l) { return new C(l, typename C::MemManager()); }	// (initializer_list, memManager)
+	static C* newcap(size_t n) { return new C(C::CreateCap(n)); }
+	template<typename F> static C* newcrt(size_t n, const F& f) { return new C(C::CreateCrt(n, f)); }
+	static bool empty(const C& c) { return c.IsEmpty(); }
+	static const T& back(const C& c) { return c.GetBackItem(); }	// GetBackItem() const
+	static auto begin(C& c) -> decltype(c.GetBegin()) { return c.GetBegin(); }	// non-const GetBegin / GetEnd
+	static auto end(C& c) -> decltype(c.GetEnd()) { return c.GetEnd(); }
+	static auto cbegin(const C& c) -> decltype(c.GetBegin()) { return c.GetBegin(); }
+	static const bool hasShrinkTo = true, hasClearShrink = true, hasCopyNoShrink = true, isNative = true;
 };
 
 template<typename TC>
@@ -380,7 +416,14 @@ struct VecAdapter
 	static void asgl(C& c, std::initializer_list<T> l) { c = l; }
 	static C* newfill(size_t n, const T& x) { return new C(n, x); }
 	template<typename It> static C* newrange(It b, It e) { return new C(b, e); }
-	static const bool hasShrinkTo = false, hasClearShrink = false, hasCopyNoShrink = false;
+	static C* newcount(size_t n) { return new C(n); }	// vector(size_type count, alloc = allocator_type())
+	static C* newlist(std::initializer_list<T> l) { return new C(l, typename C::allocator_type()); }
+	static bool empty(const C& c) { return c.empty(); }
+	static const T& back(const C& c) { return c.back(); }	// back() const -> Array::GetBackItem() const
+	static auto begin(C& c) -> decltype(c.begin()) { return c.begin(); }
+	static auto end(C& c) -> decltype(c.end()) { return c.end(); }
+	static auto cbegin(const C& c) -> decltype(c.begin()) { return c.begin(); }
+	static const bool hasShrinkTo = false, hasClearShrink = false, hasCopyNoShrink = false, isNative = false;
 	template<typename It> static void check(C&, It, size_t) {}
 };
 
@@ -395,6 +438,12 @@ class Runner
 	typedef typename Ad::T T;
 	typedef Codec<T> Cd;
 	static const int slotCount = 3;
+	static const unsigned createKinds = 8;
+	// CreateCap / CreateCrt return by value through Array(Data&&): with an internal buffer that needs nothrow-relocatable items
+	static const bool hasCreate = Ad::isNative && Ad::canMove;
+	typedef std::integral_constant<bool, hasCreate> HasCreate;
+	typedef std::integral_constant<bool, Ad::isNative> IsNative;
+	typedef std::integral_constant<bool, Ad::isNative && !Ad::isSeg> IsNativeArray;
 
 	Ctx& c; Rng& rng; Suite& s; std::string cfgName;
 	std::unique_ptr<C> obj[slotCount];
@@ -417,11 +466,14 @@ public:
 			s.comment(fmt("%s round %u", cfgName.c_str(), r));
 			history.clear();
 			for (int o = 0; o < slotCount; ++o) has[o] = false;
-			create(0, (unsigned)rng.below(4));
+			create(0, (unsigned)rng.below(createKinds));
 			unsigned big = (r % 4 == 3) ? 1 : 0;	// every 4th round lets the array grow past the growth thresholds (2, 64, 150)
 			if (big) bulk();
 			for (unsigned k = 0; k < b.opsPerRound && !broken; ++k) oneOp(big);
 			if (!broken) reserveScenario();
+			if (!broken) accessScenario(0);
+			if (!broken) { int o2 = 1 + (int)rng.below(slotCount - 1); if (has[o2]) accessScenario(o2); }
+			if (!broken) overflowScenario(IsNativeArray());
 			for (int o = 0; o < slotCount; ++o) if (has[o]) destroy(o);
 			if (memLog().liveBlocks != 0) fail("C05 memory: live blocks after destroying everything", fmt("%lld", memLog().liveBlocks));
 		}
@@ -472,21 +524,68 @@ private:
 		else reserved[o] = -1;
 	}
 
+	C* makeList(const std::vector<T>& v) {
+		switch (v.size()) {
+		case 0: return Ad::newlist({});
+		case 1: return Ad::newlist({ v[0] });
+		case 2: return Ad::newlist({ v[0], v[1] });
+		case 3: return Ad::newlist({ v[0], v[1], v[2] });
+		case 4: return Ad::newlist({ v[0], v[1], v[2], v[3] });
+		case 5: return Ad::newlist({ v[0], v[1], v[2], v[3], v[4] });
+		default: return Ad::newlist({ v[0], v[1], v[2], v[3], v[4], v[5] });
+		}
+	}
+	C* makeCap(size_t n, std::true_type) { return Ad::newcap(n); }
+	C* makeCap(size_t, std::false_type) { return nullptr; }
+	// CreateCrt(count, itemMultiCreator): the creator must be called exactly `count` times, the i-th call with the address of
+	// element i, and element i must be what that call made
+	C* makeCrt(int o, const std::vector<T>& vals, std::true_type) {
+		std::vector<T*> ptrs; size_t calls = 0;
+		auto creator = [&ptrs, &calls, &vals](T* p) { ptrs.push_back(p); size_t i = calls++; ::new(static_cast<void*>(p)) T(vals.at(i)); };
+		C* a = Ad::newcrt(vals.size(), creator);
+		if (calls != vals.size()) fail("C05 CreateCrt: creator call count", fmt("slot %d: %zu calls for count %zu", o, calls, vals.size()));
+		else for (size_t i = 0; i < vals.size(); ++i)
+			if (ptrs[i] != &Ad::at(*a, i)) { fail("C05 CreateCrt: call order", fmt("slot %d: call %zu of %zu did not construct element %zu", o, i, vals.size(), i)); break; }
+		return a;
+	}
+	C* makeCrt(int, const std::vector<T>&, std::false_type) { return nullptr; }
+
 	void create(int o, unsigned how) {
 		memLog().clear(); memLog().oracle = false;
 		std::string line;
 		std::vector<T> vals; std::string ids;
 		size_t n = (size_t)rng.below(7);
+		if (how >= 6 && !hasCreate) how -= 2;
+		long long promised = -1;
 		switch (how) {
 		case 0: obj[o].reset(new C()); ref[o].clear(); line = fmt("new %d", o); break;
 		case 1: { uint32_t id = fresh(); T x = Cd::make(id); obj[o].reset(Ad::newfill(n, x)); ref[o].assign(n, x); line = fmt("newfill %d %zu v%u", o, n, id); break; }
 		case 2: { for (size_t i = 0; i < n; ++i) { uint32_t id = fresh(); vals.push_back(Cd::make(id)); ids += fmt(" %u", id); }
 			obj[o].reset(Ad::newrange(vals.begin(), vals.end())); ref[o] = vals; line = fmt("newrange %d%s", o, ids.c_str()); break; }
-		default: { for (size_t i = 0; i < n; ++i) { uint32_t id = fresh(); vals.push_back(Cd::make(id)); ids += fmt(" %u", id); }
+		case 3: { for (size_t i = 0; i < n; ++i) { uint32_t id = fresh(); vals.push_back(Cd::make(id)); ids += fmt(" %u", id); }
 			InIt<T> b{ vals.data() }, e{ vals.data() + vals.size() };
 			obj[o].reset(Ad::newrange(b, e)); ref[o] = vals; line = fmt("newinput %d%s", o, ids.c_str()); break; }
+		case 4: {	// Array(count) / SegmentedArray(count) / vector(count): `count` value-initialised items = (count, Item()) in the model
+			if (rng.chance(1, 5)) n = (size_t)rng.range(7, 70);
+			obj[o].reset(Ad::newcount(n)); ref[o] = std::vector<T>(n); line = fmt("newfill %d %zu v0", o, n);
+			c.stats.count("op.create_count"); break; }
+		case 5: {	// (initializer_list, memManager / allocator) = the forward-range constructor
+			for (size_t i = 0; i < n; ++i) { uint32_t id = fresh(); vals.push_back(Cd::make(id)); ids += fmt(" %u", id); }
+			obj[o].reset(makeList(vals)); ref[o] = vals; line = fmt("newrange %d%s", o, ids.c_str());
+			c.stats.count("op.create_list"); break; }
+		case 6: {	// CreateCap(capacity): empty, capacity >= the request, and (reserve clause) no allocation while the size stays below it
+			n = (size_t)rng.below(40); if (rng.chance(1, 5)) n = (size_t)rng.range(40, 200);
+			obj[o].reset(makeCap(n, HasCreate())); ref[o].clear(); line = fmt("newcap %d %zu", o, n);
+			if (Ad::cap(*obj[o]) < n) fail("C05 CreateCap: capacity below the request", fmt("requested %zu capacity %zu", n, Ad::cap(*obj[o])));
+			promised = (long long)n;
+			c.stats.count("op.create_cap"); break; }
+		default: {	// CreateCrt(count, itemMultiCreator)
+			if (rng.chance(1, 5)) n = (size_t)rng.range(7, 70);
+			for (size_t i = 0; i < n; ++i) { uint32_t id = fresh(); vals.push_back(Cd::make(id)); ids += fmt(" %u", id); }
+			obj[o].reset(makeCrt(o, vals, HasCreate())); ref[o] = vals; line = fmt("newcrt %d%s", o, ids.c_str());
+			c.stats.count("op.create_crt"); break; }
 		}
-		has[o] = true; reserved[o] = -1;
+		has[o] = true; reserved[o] = promised;
 		note(line); emit(line, o); compare(o);
 		c.stats.count("op.create");
 	}
@@ -544,7 +643,7 @@ private:
 		// choose a slot; create / destroy secondary objects now and then
 		int o = (int)rng.below(slotCount);
 		if (!has[o]) {
-			if (rng.chance(1, 2) || !has[0]) { create(o, (unsigned)rng.below(4)); return; }
+			if (rng.chance(1, 2) || !has[0]) { create(o, (unsigned)rng.below(createKinds)); return; }
 			o = 0;
 		}
 		C& a = *obj[o]; std::vector<T>& r = ref[o];
@@ -820,15 +919,28 @@ private:
 	void reserveScenario()
 	{
 		int o = 0;
-		if (!has[o]) create(o, 0);
-		C& a = *obj[o]; std::vector<T>& r = ref[o];
-		size_t n0 = r.size();
+		// every third scenario starts from CreateCap(n) instead of Reserve(n) on an existing object
+		bool viaCap = hasCreate && rng.chance(1, 3);
+		if (viaCap) { if (has[o]) destroy(o); }
+		else if (!has[o]) create(o, 0);
+		size_t n0 = viaCap ? 0 : ref[o].size();
 		size_t n = n0 + (size_t)rng.range(1, 40);
-		setOracle(o);
-		memLog().clear();
-		std::string line = fmt("reserve %d %zu", o, n);
-		Ad::reserve(a, n);
-		note(line); emit(line, o); compare(o);
+		std::string line;
+		if (viaCap) {
+			memLog().clear(); memLog().oracle = false;
+			line = fmt("newcap %d %zu", o, n);
+			obj[o].reset(makeCap(n, HasCreate())); ref[o].clear(); has[o] = true;
+			note(line); emit(line, o); compare(o);
+			c.stats.count("op.create_cap"); c.stats.count("reserve_clause.scenarios_from_CreateCap");
+		}
+		else {
+			setOracle(o);
+			memLog().clear();
+			line = fmt("reserve %d %zu", o, n);
+			Ad::reserve(*obj[o], n);
+			note(line); emit(line, o); compare(o);
+		}
+		C& a = *obj[o]; std::vector<T>& r = ref[o];
 		if (Ad::cap(a) < n) fail("C05 reserve: capacity below the request", fmt("requested %zu capacity %zu", n, Ad::cap(a)));
 		reserved[o] = (long long)n;
 		unsigned guard = 0;
@@ -862,6 +974,210 @@ private:
 		}
 		c.stats.count("reserve_clause.scenarios");
 		reserved[o] = -1;
+	}
+
+	// ---- read access, iterators, Contains / IsEqual (none of them may change the container: the model answers `get`)
+
+	// equality of the ids modulo `mod` (0 = exact); counts its calls, so that "the functor that was passed is the one that is used"
+	// is observable
+	struct EqMod {
+		unsigned mod; size_t* calls;
+		static std::string key(const T& t, unsigned mod) { std::string sh = Cd::show(t); if (mod == 0 || sh == "~") return sh; return std::to_string(std::stoul(sh) % mod); }
+		bool operator()(const T& x, const T& y) const { ++*calls; return key(x, mod) == key(y, mod); }
+	};
+
+	void accessScenario(int o)
+	{
+		C& a = *obj[o]; const C& ca = a; std::vector<T>& r = ref[o];
+		memLog().clear();
+		c.stats.count("scenario.access");
+		// IsEmpty / empty, GetBackItem() const / back() const
+		if (Ad::empty(ca) != r.empty()) fail("C05 IsEmpty", fmt("slot %d: answered %d, the size is %zu", o, (int)Ad::empty(ca), r.size()));
+		if (!r.empty()) {
+			const T& b = Ad::back(ca);
+			if (&b != &Ad::at(ca, r.size() - 1) || Cd::show(b) != Cd::show(r.back()))
+				fail("C05 GetBackItem const", fmt("slot %d: got %s expected %s (size %zu)", o, Cd::show(b).c_str(), Cd::show(r.back()).c_str(), r.size()));
+		}
+		// non-const GetBegin / GetEnd: visit every element once in order, convert to the const iterator, write through the iterator
+		{
+			auto it = Ad::begin(a); auto e = Ad::end(a);
+			typedef decltype(Ad::cbegin(ca)) CIt;
+			size_t i = 0;
+			for (; it != e && !broken; ++it, ++i) {
+				if (i >= r.size()) { fail("C05 iteration", fmt("slot %d: GetBegin..GetEnd runs past the size %zu", o, r.size())); break; }
+				CIt cit = it;	// ArrayIndexIterator::operator ConstIterator (Item* -> const Item* when iterators are pointers)
+				CIt want = Ad::cbegin(ca) + (ptrdiff_t)i;
+				if (!(cit == want) || &*cit != &Ad::at(ca, i) || &*it != &Ad::at(a, i) || Cd::show(*cit) != Cd::show(r[i])) {
+					fail("C05 iteration", fmt("slot %d: iterator %zu of %zu does not designate element %zu (value %s expected %s)", o, i, r.size(), i, Cd::show(*cit).c_str(), Cd::show(r[i]).c_str()));
+					break;
+				}
+				if (rng.chance(1, 3) && i < 40) {
+					uint32_t id = fresh();
+					memLog().clear();
+					*it = Cd::make(id); r[i] = Cd::make(id);
+					std::string l2 = fmt("set %d %zu %u", o, i, id);
+					note(l2); emit(l2, o); compare(o);
+					c.stats.count("iterator.writes");
+				}
+			}
+			if (!broken && i != r.size()) fail("C05 iteration", fmt("slot %d: GetBegin..GetEnd visited %zu of %zu elements", o, i, r.size()));
+			if (!broken && (size_t)(e - Ad::begin(a)) != r.size()) fail("C05 iteration", fmt("slot %d: GetEnd - GetBegin = %lld, size %zu", o, (long long)(e - Ad::begin(a)), r.size()));
+		}
+		if (!broken) searchScenario(o, IsNative());
+		if (broken) return;
+		memLog().clear();
+		std::string line = fmt("get %d", o);
+		note(line); emit(line, o); compare(o);
+	}
+
+	void searchScenario(int, std::false_type) {}
+	void searchScenario(int o, std::true_type)
+	{
+		C& a = *obj[o]; const C& ca = a; std::vector<T>& r = ref[o];
+		size_t n = r.size();
+		// Contains(item, equalFunc) against std::any_of on the reference sequence: an element, a value that is not there, a value
+		// that is there only for the functor
+		for (unsigned t = 0; t < 4; ++t) {
+			unsigned mod = (t & 1) ? (unsigned)rng.range(2, 5) : 0;
+			uint32_t id = fresh();
+			T probe = (t < 2 && n > 0) ? T(r[(size_t)rng.below(n)]) : Cd::make(id);
+			size_t calls = 0, refCalls = 0;
+			EqMod eq{ mod, &calls }, refEq{ mod, &refCalls };
+			bool got = ca.Contains(probe, eq);
+			bool want = std::any_of(r.begin(), r.end(), [&](const T& x) { return refEq(x, probe); });
+			if (got != want) fail("C05 Contains", fmt("slot %d: Contains(%s, equal mod %u) = %d, std::any_of on the reference = %d (size %zu)", o, Cd::show(probe).c_str(), mod, (int)got, (int)want, n));
+			if (calls != refCalls) fail("C05 Contains", fmt("slot %d: the equality functor was called %zu times, a linear search needs %zu (size %zu)", o, calls, refCalls, n));
+			c.stats.count(want ? "contains.true" : "contains.false");
+			c.stats.evaluations++;
+		}
+		containsDefault(o, std::is_same<T, std::string>());
+		// IsEqual(array, equalFunc) against std::equal (4 iterators) on the references: a copy; the copy with one element changed
+		// (really different / different only for the exact functor); longer and shorter copies
+		for (unsigned t = 0; t < 5 && !broken; ++t) {
+			std::unique_ptr<C> b(Ad::cctor(ca, true)); std::vector<T> rb(r);
+			unsigned mod = 0;
+			const char* what = "copy";
+			if (t == 1 || t == 2) {
+				if (n == 0) continue;
+				size_t j = (size_t)rng.below(n); uint32_t id = fresh();
+				mod = (t == 2) ? 2 : 0;
+				if (t == 2) {	// a different id with the same parity: equal for the functor, unequal exactly
+					std::string sh = Cd::show(r[j]);
+					if (sh != "~" && (std::stoul(sh) & 1) != (id & 1)) id = fresh();
+				}
+				Ad::at(*b, j) = Cd::make(id); rb[j] = Cd::make(id);
+				what = (t == 2) ? "one element replaced by one of the same parity" : "one element replaced";
+			}
+			else if (t == 3) { uint32_t id = fresh(); T v = Cd::make(id); Ad::pushc(*b, v); rb.push_back(v); what = "one element more"; }
+			else if (t == 4) { if (n == 0) continue; Ad::pop(*b, 1); rb.pop_back(); what = "one element less"; }
+			const C& cb = *b;
+			for (unsigned dir = 0; dir < 2; ++dir) {
+				size_t calls = 0, refCalls = 0;
+				EqMod eq{ mod, &calls }, refEq{ mod, &refCalls };
+				bool got = dir ? cb.IsEqual(ca, eq) : ca.IsEqual(cb, eq);
+				bool want = dir ? std::equal(rb.begin(), rb.end(), r.begin(), r.end(), refEq) : std::equal(r.begin(), r.end(), rb.begin(), rb.end(), refEq);
+				if (got != want) fail("C05 IsEqual", fmt("slot %d: IsEqual(%s, equal mod %u)%s = %d, std::equal on the references = %d (sizes %zu, %zu)", o, what, mod, dir ? " reversed" : "", (int)got, (int)want, r.size(), rb.size()));
+				if (calls != refCalls) fail("C05 IsEqual", fmt("slot %d: IsEqual(%s): the equality functor was called %zu times, std::equal needs %zu", o, what, calls, refCalls));
+				c.stats.count(want ? "isequal.true" : "isequal.false");
+				c.stats.evaluations++;
+			}
+			if (t == 0) equalDefault(o, *b, std::is_same<T, std::string>());
+		}
+		memLog().clear();
+	}
+	// the default EqualFunc (std::equal_to<Item>) needs operator==: std::string only
+	void containsDefault(int, std::false_type) {}
+	void containsDefault(int o, std::true_type) {
+		const C& ca = *obj[o]; std::vector<T>& r = ref[o];
+		uint32_t id = fresh();
+		T probe = (!r.empty() && rng.chance(1, 2)) ? T(r[(size_t)rng.below(r.size())]) : Cd::make(id);
+		bool got = ca.Contains(probe), want = std::find(r.begin(), r.end(), probe) != r.end();
+		if (got != want) fail("C05 Contains", fmt("slot %d: Contains(%s) = %d, std::find on the reference = %d (size %zu)", o, Cd::show(probe).c_str(), (int)got, (int)want, r.size()));
+	}
+	void equalDefault(int, C&, std::false_type) {}
+	void equalDefault(int o, C& b, std::true_type) {
+		const C& ca = *obj[o];
+		if (!ca.IsEqual(b) || !static_cast<const C&>(b).IsEqual(ca)) fail("C05 IsEqual", fmt("slot %d: a copy is not equal to its source (size %zu)", o, ref[o].size()));
+		if (!ref[o].empty()) {
+			size_t j = (size_t)rng.below(ref[o].size());
+			T saved(Ad::at(b, j));
+			Ad::at(b, j) = Cd::make(fresh());
+			if (ca.IsEqual(b)) fail("C05 IsEqual", fmt("slot %d: equal although element %zu of %zu differs", o, j, ref[o].size()));
+			Ad::at(b, j) = saved;
+		}
+	}
+
+	// ---- Array::Data::pvCheckCapacity: a capacity whose byte size does not fit size_t is refused with std::bad_array_new_length
+	// (a std::bad_alloc) before any memory-manager call; contents, count AND capacity stay as they were (C04 `reserve`)
+	void overflowScenario(std::false_type) {}
+	void overflowScenario(std::true_type)
+	{
+		// an empty object in slot 1 and whatever slot 0 holds (not empty after the reserve scenario)
+		if (has[1]) destroy(1);
+		create(1, 0);
+		for (int o = 1; o >= 0 && !broken; --o) {
+			if (!has[o]) continue;
+			C& a = *obj[o];
+			const size_t big = SIZE_MAX / sizeof(T) + 1;
+			for (unsigned v = 0; v < 6 && !broken; ++v) {
+				size_t arg = (v & 1) ? (rng.chance(1, 2) ? SIZE_MAX : big + (size_t)rng.below(SIZE_MAX - big)) : big;
+				std::string before = state(o);
+				long long blocksBefore = memLog().liveBlocks;
+				memLog().clear();
+				const char* what = v < 2 ? "Reserve" : v < 4 ? "SetCount(count)" : "SetCount(count, item)";
+				int outcome = 0;	// 1 = bad_array_new_length, 2 = another bad_alloc, 3 = something else
+				try {
+					if (v < 2) a.Reserve(arg);
+					else if (v < 4) a.SetCount(arg);
+					else if (ref[o].empty()) { T x = Cd::make(fresh()); a.SetCount(arg, x); }
+					else a.SetCount(arg, static_cast<const C&>(a)[(size_t)rng.below(ref[o].size())]);
+				}
+				catch (const std::bad_array_new_length&) { outcome = 1; }
+				catch (const std::bad_alloc&) { outcome = 2; }
+				catch (...) { outcome = 3; }
+				c.stats.evaluations++; c.stats.count(std::string("overflow.") + what + (ref[o].empty() ? ".empty" : ".nonempty"));
+				std::string tag = fmt("slot %d: %s(%zu) with sizeof(Item) = %zu", o, what, arg, sizeof(T));
+				if (outcome != 1) fail("C05/C04 capacity overflow: no std::bad_array_new_length", tag + (outcome == 0 ? " returned" : outcome == 2 ? " threw another std::bad_alloc" : " threw something else"));
+				else if (state(o) != before) fail("C05/C04 capacity overflow: the failed call changed the array", tag + fmt(" before {%s} after {%s}", before.c_str(), state(o).c_str()));
+				else if (!memLog().ev.empty() || memLog().liveBlocks != blocksBefore) fail("C05/C04 capacity overflow: memory-manager call", tag + " calls [" + memLog().str() + "]");
+				if (broken) return;
+				std::string line = fmt("get %d", o);
+				note(fmt("%s(%zu) -> threw; ", what, arg) + line); emit(line, o); compare(o);
+			}
+		}
+		overflowCreate(HasCreate());
+		// constructors: nothing may have been allocated
+		for (unsigned v = 0; v < 2 && !broken; ++v) {
+			const size_t big = SIZE_MAX / sizeof(T) + 1;
+			long long blocksBefore = memLog().liveBlocks;
+			memLog().clear();
+			int outcome = 0;
+			try { if (v == 0) { std::unique_ptr<C> t(Ad::newcount(big)); } else { T x = Cd::make(fresh()); std::unique_ptr<C> t(Ad::newfill(big, x)); } }
+			catch (const std::bad_array_new_length&) { outcome = 1; }
+			catch (...) { outcome = 3; }
+			c.stats.evaluations++; c.stats.count("overflow.constructor");
+			if (outcome != 1 || !memLog().ev.empty() || memLog().liveBlocks != blocksBefore)
+				fail("C05/C04 capacity overflow: constructor", fmt("Array(%zu%s) with sizeof(Item) = %zu: outcome %d calls [%s]", big, v ? ", item" : "", sizeof(T), outcome, memLog().str().c_str()));
+		}
+		c.stats.count("scenario.overflow");
+	}
+	void overflowCreate(std::false_type) {}
+	void overflowCreate(std::true_type) {
+		const size_t big = SIZE_MAX / sizeof(T) + 1;
+		for (unsigned v = 0; v < 2 && !broken; ++v) {
+			long long blocksBefore = memLog().liveBlocks;
+			memLog().clear();
+			int outcome = 0; size_t calls = 0;
+			try {
+				if (v == 0) { std::unique_ptr<C> t(Ad::newcap(big)); }
+				else { auto creator = [&calls](T* p) { ++calls; ::new(static_cast<void*>(p)) T(); }; std::unique_ptr<C> t(Ad::newcrt(big, creator)); }
+			}
+			catch (const std::bad_array_new_length&) { outcome = 1; }
+			catch (...) { outcome = 3; }
+			c.stats.evaluations++; c.stats.count("overflow.CreateCap");
+			if (outcome != 1 || calls != 0 || !memLog().ev.empty() || memLog().liveBlocks != blocksBefore)
+				fail("C05/C04 capacity overflow: CreateCap / CreateCrt", fmt("%s(%zu) with sizeof(Item) = %zu: outcome %d, %zu creator calls, calls [%s]", v ? "CreateCrt" : "CreateCap", big, sizeof(T), outcome, calls, memLog().str().c_str()));
+		}
 	}
 };
 
